@@ -69,6 +69,21 @@ Theorem precedence_partial : prec_all = true.
 Proof. exact prec_all_ok. Qed.
 Print Assumptions precedence_partial.
 
+(* a new object has no own style value: every constructor default of every style class is None and every leaf of
+   a new style reads None - except the three listed in ctor_default_exceptions (open findings
+   precedence/ctor-default:Class.prop), which prec_all therefore leaves out *)
+Theorem new_object_has_no_own_values_partial : ctor_defaults_ok = true /\ fresh_all = true.
+Proof. exact (conj ctor_defaults_ok_ok fresh_all_ok). Qed.
+Print Assumptions new_object_has_no_own_values_partial.
+
+(* ... and for those exceptions the clause "else the defaults of the object's family" is false: *)
+Theorem precedence_ctor_default_refuted :
+  prec_holds "Sensor" ["pixel"; "size"] (VInt 3) (VInt 4) (VInt 2) (VInt 5) (VInt 6)
+             (mkSrc false false true false false) false NAttr = false /\
+  leaf_is (class_schema "Sensor") (fresh_state (class_schema "Sensor")) ["pixel"; "size"] (Some (VInt 1)) = true.
+Proof. exact ctor_default_witness. Qed.
+Print Assumptions precedence_ctor_default_refuted.
+
 (* ... and `label` is one of those leaves: show(obj, style_label=..) is accepted and wins (5f59f3d) *)
 Theorem precedence_covers_label :
   smem "label" valid_keys = true /\ prec_leaf KToStr ["label"] = true /\
